@@ -1001,3 +1001,69 @@ Proof.
     { induction ops0 as [|op ops0 IH]; intros st0; [reflexivity|]. rewrite srun_cons. cbn [snd length]. rewrite IH. reflexivity. }
     rewrite <- (L ops st). rewrite firstn_app, Nat.sub_diag, firstn_O, app_nil_r. apply firstn_all.
 Qed.
+
+(* ===================================================================================== *)
+(* Round 7: two frames made from one (empty) rows argument are separate values            *)
+
+Lemma twin_run_cons : forall fs x xs,
+  twin_run fs (x :: xs) =
+  (fst (twin_run (fst (twin_step fs x)) xs), snd (twin_step fs x) :: snd (twin_run (fst (twin_step fs x)) xs)).
+Proof.
+  intros fs x xs. cbn [twin_run]. destruct (twin_step fs x) as [fs1 o]. cbn [fst snd].
+  destruct (twin_run fs1 xs) as [fs2 os]. reflexivity.
+Qed.
+
+Lemma twin_step_true : forall f0 f1 e,
+  twin_step (f0, f1) (true, e) = ((f0, fst (append f1 e)), snd (append f1 e)).
+Proof. intros. cbn [twin_step]. destruct (append f1 e). reflexivity. Qed.
+
+Lemma twin_step_false : forall f0 f1 e,
+  twin_step (f0, f1) (false, e) = ((fst (append f0 e), f1), snd (append f0 e)).
+Proof. intros. cbn [twin_step]. destruct (append f0 e). reflexivity. Qed.
+
+(* each frame ends as if only its own entries had been appended to it, alone *)
+Lemma twin_frames_independent : forall xs f0 f1,
+  fst (twin_run (f0, f1) xs) = (fst (run f0 (twin_sel false xs)), fst (run f1 (twin_sel true xs))).
+Proof.
+  induction xs as [|[b e] xs IH]; intros f0 f1.
+  - reflexivity.
+  - rewrite twin_run_cons. cbn [fst].
+    destruct b.
+    + rewrite twin_step_true. cbn [fst]. rewrite IH.
+      unfold twin_sel. cbn [filter fst snd Bool.eqb map]. rewrite run_cons. reflexivity.
+    + rewrite twin_step_false. cbn [fst]. rewrite IH.
+      unfold twin_sel. cbn [filter fst snd Bool.eqb map]. rewrite run_cons. reflexivity.
+Qed.
+
+(* the outcomes addressed to a frame are the outcomes of its own history *)
+Fixpoint twin_outs (b : bool) (xs : list (bool * entry)) (os : list aout) : list aout :=
+  match xs, os with
+  | x :: xs', o :: os' => if Bool.eqb (fst x) b then o :: twin_outs b xs' os' else twin_outs b xs' os'
+  | _, _ => []
+  end.
+
+Lemma twin_outcomes_own : forall xs f0 f1,
+  twin_outs false xs (snd (twin_run (f0, f1) xs)) = snd (run f0 (twin_sel false xs)) /\
+  twin_outs true xs (snd (twin_run (f0, f1) xs)) = snd (run f1 (twin_sel true xs)).
+Proof.
+  induction xs as [|[b e] xs IH]; intros f0 f1.
+  - split; reflexivity.
+  - rewrite twin_run_cons. cbn [snd].
+    destruct b.
+    + rewrite twin_step_true. cbn [fst snd]. destruct (IH f0 (fst (append f1 e))) as [A B].
+      unfold twin_sel. cbn [twin_outs filter fst snd Bool.eqb map]. rewrite run_cons. cbn [snd].
+      split; [exact A | f_equal; exact B].
+    + rewrite twin_step_false. cbn [fst snd]. destruct (IH (fst (append f0 e)) f1) as [A B].
+      unfold twin_sel. cbn [twin_outs filter fst snd Bool.eqb map]. rewrite run_cons. cbn [snd].
+      split; [f_equal; exact A | exact B].
+Qed.
+
+(* one step: the frame that is not addressed is untouched; a raising append leaves both as they were *)
+Lemma twin_step_local : forall (f0 f1 : frame) (b : bool) (e : entry),
+  (if b then fst (fst (twin_step (f0, f1) (b, e))) = f0 else snd (fst (twin_step (f0, f1) (b, e))) = f1) /\
+  (forall x, snd (twin_step (f0, f1) (b, e)) = ARaise x -> fst (twin_step (f0, f1) (b, e)) = (f0, f1)).
+Proof.
+  intros f0 f1 b e. destruct b.
+  - rewrite twin_step_true. cbn [fst snd]. split; [reflexivity|]. intros x H. rewrite (append_atomic _ _ _ H). reflexivity.
+  - rewrite twin_step_false. cbn [fst snd]. split; [reflexivity|]. intros x H. rewrite (append_atomic _ _ _ H). reflexivity.
+Qed.
